@@ -46,6 +46,9 @@ type c08Scenario struct {
 	// Early: the cause strikes right after the pipes were opened, while the
 	// workers are still starting up, instead of in their steady state.
 	Early bool
+	// SshdLoad: accepted password logins keep streaming in on the sshd pipe while
+	// the cause strikes (the sshd worker is busy handing logins over, not idle).
+	SshdLoad bool
 }
 
 var c08Causes = []string{
@@ -76,7 +79,19 @@ type pump struct {
 	inject chan string // a line the pump writes next, in-stream, without a gap in the load
 }
 
+// startSshdPump keeps the sshd pipe busy with accepted password logins of
+// sessions nobody will ever open (each login is handed to the audit worker).
+func startSshdPump(path string, d *daemon) (*pump, error) {
+	return startPumpGen(path, d, "", 0, func(seq int) []byte {
+		return []byte(fmt.Sprintf("%d Accepted password for load%d from 10.8.0.1 port %d ssh2\n", 500000+seq, seq, 1024+seq%60000))
+	})
+}
+
 func startPump(path string, d *daemon, ses string, pid int) (*pump, error) {
+	return startPumpGen(path, d, ses, pid, nil)
+}
+
+func startPumpGen(path string, d *daemon, ses string, pid int, gen func(seq int) []byte) (*pump, error) {
 	var fd int
 	var err error
 	deadline := time.Now().Add(60 * time.Second)
@@ -101,6 +116,8 @@ func startPump(path string, d *daemon, ses string, pid int) (*pump, error) {
 			seq++
 			var buf []byte
 			switch {
+			case gen != nil:
+				buf = gen(seq)
 			case ses == "":
 				buf = append([]byte(vlib.AuUser("USER_ACCT", vlib.BaseTSms+int64(seq), uint32(seq), 1, "4294967295", "PAM:accounting", "success")), '\n')
 			case seq == 11:
@@ -287,6 +304,18 @@ func c08Run(r *vlib.Run, sc c08Scenario, idx int) (evaluated bool) {
 	} else {
 		sig += ":during-start-up"
 		label += "/early"
+	}
+	if sc.SshdLoad {
+		sig += ":sshd-login-load"
+		label += "/sshd-login-load"
+		sp, err := startSshdPump(d.sshdPath, d)
+		if err != nil {
+			r.Inconclusive(label + ": could not open the sshd pipe for the login load")
+			return false
+		}
+		defer sp.halt()
+		// let some logins through first (their UserLogin events show up in the output)
+		d.waitForOutput(func(b []byte) bool { return bytes.Count(b, []byte("\n")) >= 20 }, 30*time.Second)
 	}
 	stalls := int64(0)
 	inflight := 0
@@ -570,6 +599,9 @@ func checkC08(r *vlib.Run) int {
 	for _, c := range c08Causes {
 		scs = append(scs, c08Scenario{Cause: c, Early: true})
 	}
+	for _, c := range []string{"malformed-audit-line", "audit-pipe-eof", "burst-of-unauditable-records", "SIGTERM", "SIGINT", "audit-pipe-eof-mid-record"} {
+		scs = append(scs, c08Scenario{Cause: c, SshdLoad: true})
+	}
 	var idle, sat []int
 	for i, s := range scs {
 		// one at a time: saturated scenarios (timing), the HTTP server (fixed port), and the FIFO-output
@@ -589,7 +621,7 @@ func checkC08(r *vlib.Run) int {
 	for i, ok := range done {
 		if ok {
 			evals++
-			dist.Add(fmt.Sprintf("%s|%v|%v|%v|%v|%v", scs[i].Cause, scs[i].Saturated, scs[i].NoWriter, scs[i].Debug, scs[i].HTTP, scs[i].StuckScraper) + fmt.Sprint(scs[i].AuditMetrics, scs[i].OutputMissing, scs[i].Early))
+			dist.Add(fmt.Sprintf("%s|%v|%v|%v|%v|%v", scs[i].Cause, scs[i].Saturated, scs[i].NoWriter, scs[i].Debug, scs[i].HTTP, scs[i].StuckScraper) + fmt.Sprint(scs[i].AuditMetrics, scs[i].OutputMissing, scs[i].Early, scs[i].SshdLoad))
 		}
 	}
 	r.Set("causes", c08Causes)
@@ -598,7 +630,7 @@ func checkC08(r *vlib.Run) int {
 	r.Assumptions = []string{"'saturated' is observed: the pumping writer's write(2) hit EAGAIN at least five times and the number of lines in flight between pipe and output stopped growing (or passed 10000) before the fault is injected, otherwise the scenario is inconclusive",
 		"'does not exit' is a violation only if the SIGQUIT dump shows main parked in errgroup.Wait and a worker parked; otherwise inconclusive",
 		"signals may end the process with any status; failures must give a non-zero status"}
-	return r.Finish(evals, dist.Len(), "built daemon x failure cause {sshd pipe EOF, audit pipe EOF, either pipe's EOF in the middle of a record, malformed audit line, a burst of 40 LOGIN records with a non-numeric pid, event write failure via /dev/full (on an sshd line) and via a FIFO output whose reader goes away (on an audit event of a correlated session), sshd/audit path is a regular file / missing / a directory, SIGTERM, SIGINT} x load {idle with writers attached, idle with the other pipe still waiting for its writer, saturated by a pumping writer} x log level {error, debug}, six causes with the HTTP health/metrics server enabled and three of them with a scrape client that never reads its answers, every cause with -audit-metrics (ticker member of the worker group, 20 ms), both signals while the daemon still waits for its events output file to appear, every cause right after the pipes were opened (workers still starting up); thorough: x3 and with the -race build; distinct = (cause, load) pairs evaluated")
+	return r.Finish(evals, dist.Len(), "built daemon x failure cause {sshd pipe EOF, audit pipe EOF, either pipe's EOF in the middle of a record, malformed audit line, a burst of 40 LOGIN records with a non-numeric pid, event write failure via /dev/full (on an sshd line) and via a FIFO output whose reader goes away (on an audit event of a correlated session), sshd/audit path is a regular file / missing / a directory, SIGTERM, SIGINT} x load {idle with writers attached, idle with the other pipe still waiting for its writer, saturated by a pumping writer} x log level {error, debug}, six causes with the HTTP health/metrics server enabled and three of them with a scrape client that never reads its answers, every cause with -audit-metrics (ticker member of the worker group, 20 ms), both signals while the daemon still waits for its events output file to appear, every cause right after the pipes were opened (workers still starting up), six causes while accepted password logins keep streaming in on the sshd pipe; thorough: x3 and with the -race build; distinct = (cause, load) pairs evaluated")
 }
 
 func lastLineOf(s string) string {
